@@ -30,6 +30,7 @@ public:
     }
 
     [[nodiscard]] arr_cmplx solve(const arr_cmplx& x) const final {
+        DSPLIB_ASSERT(x.size() == n_, "input vector size is not equal fft size");
         arr_cmplx y(x.size());
         _dft(x.data(), y.data(), y.size());
         return y;
@@ -41,6 +42,7 @@ public:
 
     void solve(const cmplx_t* restrict x, cmplx_t* restrict y, int n) const final {
         DSPLIB_ASSERT(x != y, "Pointers must be restricted");
+        DSPLIB_ASSERT(n == n_, "input vector size is not equal fft size");
         _dft(x, y, n);
     }
 
